@@ -460,13 +460,20 @@ def chainStep (c : Cfg) (raw : Bool) (k : Nat) (m : Map) (st : ES) (acc : ChainA
   -- a step for the other variant: the harness drops the handle
   | _, st => .ok (m, .done, dropHandle st acc)
 
+/-- A chain may erase and insert several times (`insert` … `replace_entry_with(None)` … `insert` …), and what
+    hashbrown does with one erasure decides the fate of the insertion after it: the oracle of a chain is
+    therefore read position by position — step `i` sees digit `i` of `empt` (base 2: does this step's erasure
+    write EMPTY) and of `hits` (base `B`: tombstone landings of this step's insertion). -/
+def _root_.Griddle.Orc.digit (B : Nat) (o : Orc) : Orc := { o with empt := o.empt % 2, hits := o.hits % B }
+def _root_.Griddle.Orc.shift (B : Nat) (o : Orc) : Orc := { o with empt := o.empt / 2, hits := o.hits / B }
+
 def chainLoop (c : Cfg) (raw : Bool) (k : Nat) : List EStep → Map → ES → ChainAcc → Orc →
     Except Fault (Map × ES × ChainAcc)
   | [], m, st, acc, _ => .ok (m, st, acc)
   | s :: rest, m, st, acc, o =>
-    match chainStep c raw k m st acc s o with
+    match chainStep c raw k m st acc s (o.digit (c.R + 2)) with
     | .error f => .error f
-    | .ok (m', st', acc') => chainLoop c raw k rest m' st' acc' o
+    | .ok (m', st', acc') => chainLoop c raw k rest m' st' acc' (o.shift (c.R + 2))
 
 /-- the handle a lookup yields -/
 def lookupState (raw : Bool) (m : Map) (k kid : Nat) : ES :=
